@@ -478,3 +478,24 @@ Section OrderedP.
     rewrite E. apply disk_compact_scan; [exact Hi|]. intros l. destruct (list_eq_dec _ _ _) as [->|_]; [apply kmerge_perm|apply Permutation_refl].
   Qed.
 End OrderedP.
+
+(** ** C05 helpers *)
+Theorem mem_history_exact : forall ops t b, disk_inv t -> Permutation (mem_scan t) b ->
+  Permutation (mem_scan (fold_left mem_step ops t)) (fold_left spec_step ops b).
+Proof.
+  induction ops as [|o ops IH]; intros t b Hi Hp; [exact Hp|]. cbn [fold_left].
+  destruct (mem_step_ok t b o Hi Hp) as [Hi' Hp']. apply IH; assumption.
+Qed.
+Lemma filter_length_perm {A} (p : A -> bool) l l' : Permutation l l' -> length (filter p l) = length (filter p l').
+Proof.
+  induction 1; cbn; try reflexivity.
+  - destruct (p x); cbn; congruence.
+  - destruct (p x), (p y); reflexivity.
+  - congruence.
+Qed.
+Theorem delete_counts_equal p tm td : disk_inv tm -> disk_inv td -> Permutation (mem_scan tm) (disk_scan td) ->
+  snd (mem_delete p tm) = snd (disk_delete p td).
+Proof.
+  intros Hm Hd Hp. change (snd (disk_delete p tm) = snd (disk_delete p td)). destruct (disk_delete_scan p tm Hm) as [_ ->]. destruct (disk_delete_scan p td Hd) as [_ ->].
+  apply filter_length_perm. exact Hp.
+Qed.
